@@ -20,6 +20,8 @@ CONSTANTS Ctx <- McCtx
  BGL = {90000, 150000, 300000}
  BoxFrom = {"a1", "a4"}
  BoxTo = {"a1", "a2", "a3"}
+ BoxSeqs = {}
+ SpendFrom = {}
  RewFrom = {}
  RewTerms = {}
  RewAmt = {}
